@@ -140,6 +140,7 @@ def run(prog, run):
     r3(prog, run)
     r4(prog, run)
     r5(prog, run)
+    r6(prog, run)
 
 
 def r1(prog, run, fns, byid):
@@ -389,14 +390,78 @@ def r5(prog, run):
     rid = run.rule('C10.R5', 'a deliberate disconnect tells the stream manager that the stream is closed (no resumption) before the socket is closed: closing the socket '
                              'runs the session-end handlers synchronously, and they decide from canResume() whether outstanding requests are cancelled', floor=1)
     f = prog.fn(OC + '::disconnectFromHost')
-    closed = [i for i, n in f.calls() if f.cname(n).endswith('C2sStreamManager::onStreamClosed')]
-    sock = [i for i, n in f.calls() if f.cname(n).endswith('XmppSocket::disconnectFromHost')]
-    if not sock:
+
+    def event_of(g, nid):
+        n = g.nodes[nid]
+        if n['k'] == 'call':
+            cn = g.cname(n)
+            if cn.endswith('C2sStreamManager::onStreamClosed'):
+                return 'closed'
+            if cn.endswith('XmppSocket::disconnectFromHost'):
+                return 'sock'
+        return None
+    # effect sequences over all paths, helpers of the same file inlined with their constant arguments (closeStream(false) ...)
+    seqs = cfgx.effect_sequences(prog, f, event_of)
+    if not any('sock' in q for q in seqs):
         raise AnalysisBroken('C10.R5: QXmppOutgoingClient::disconnectFromHost no longer closes the socket')
     run.instance(rid)
-    if closed and all(any(f.node_dominates(c, s2) for c in closed) for s2 in sock):
-        run.ok(rid, f.loc(closed[0]), 'onStreamClosed() precedes socket.disconnectFromHost()')
+    bad = [q for q in seqs if 'sock' in q and 'closed' not in q[:q.index('sock')]]
+    if not bad:
+        run.ok(rid, f.loc(), 'onStreamClosed() precedes socket.disconnectFromHost() on every path (%s)' % sorted(seqs))
     else:
-        run.violation(rid, 'disconnectFromHost#order', f.loc(sock[0]),
-                      'the socket is closed before the stream manager learns that the stream was closed deliberately: the session-end handlers still see a resumable '
-                      'stream, keep the outstanding requests, and resumability is dropped right afterwards - the requests are neither completed nor resumable')
+        run.violation(rid, 'disconnectFromHost#order', f.loc(),
+                      'the socket is closed before the stream manager learns that the stream was closed deliberately (effect order %s): the session-end handlers still see a resumable '
+                      'stream, keep the outstanding requests, and resumability is dropped right afterwards - the requests are neither completed nor resumable' % list(bad[0]))
+
+
+def r6(prog, run):
+    rid = run.rule('C10.R6', 'every timer that the connection / negotiation code starts is stopped when the connection is lost: a stop() of that timer is executed from the '
+                             'socket-disconnected handler (directly, in a callee, or in a slot or lambda connected to a signal that handler emits); a timer that keeps running '
+                             'fires into a disconnected client', floor=2)
+    from ..callgraph import connects
+    fns, byid = _scope(prog)
+    starts, stops = defaultdict(list), defaultdict(list)
+    for f in fns:
+        for i, n in f.calls():
+            cn = f.cname(n)
+            if cn in ('QTimer::start', 'QTimer::stop') and n.get('obj') is not None:
+                o = f.nodes[f.skip(n['obj'])]
+                if o['k'] == 'mem':
+                    (starts if cn == 'QTimer::start' else stops)[o['f']].append((f, i))
+    if not starts:
+        raise AnalysisBroken('C10.R6: no QTimer member started in the outgoing-client units (pingTimer / timeoutTimer expected)')
+    # everything that runs when the socket reports the disconnect: callees, lambdas, and slots/lambdas connected to the signals emitted on the way
+    by_signal = defaultdict(list)
+    for c in connects(prog, fns):
+        sq = (c['signal'] or {}).get('qname')
+        if c['kind'] == 'lambda':
+            by_signal[sq] += list(c['target'])
+        elif c['kind'] == 'slot':
+            g = prog.fns.get(c['target'].get('usr'))
+            if g is not None:
+                by_signal[sq].append(g)
+    root = prog.fn(OC + '::_q_socketDisconnected')
+    seen, work = set(), [root]
+    while work:
+        f = work.pop()
+        if f.id in seen:
+            continue
+        seen.add(f.id)
+        work += prog.lambdas_of.get(f.id, []) if not f.is_lambda or True else []
+        for i, n in f.calls():
+            sy = f.sym(n) or {}
+            if sy.get('signal'):
+                work += by_signal.get(sy.get('qname'), [])
+            for g in prog.callee_fns(f, n):
+                if g.id in byid:
+                    work.append(g)
+    for fld in sorted(starts):
+        run.instance(rid)
+        hit = [(f, i) for f, i in stops.get(fld, []) if f.id in seen]
+        f0, i0 = starts[fld][0]
+        if hit:
+            run.ok(rid, hit[0][0].loc(hit[0][1]), '%s is stopped on the connection-lost path' % fld.split('::')[-1])
+        else:
+            run.violation(rid, 'timer#%s#survives-connection-loss' % fld.split('::')[-1], f0.loc(i0),
+                          '%s is started here but no stop() of it runs when the socket reports the disconnect: it fires later into a disconnected client (spurious error, '
+                          'state reset behind the back of a pending resumption)' % fld)
